@@ -7,6 +7,7 @@ import (
 	"fmt"
 	"math"
 	"reflect"
+	"runtime"
 	"strings"
 	"time"
 	"unsafe"
@@ -140,6 +141,15 @@ func init() {
 }
 
 func onlyChars(s, set string) bool { return strings.Trim(s, set) == "" }
+
+// errPrefix is the part of an error message before the first colon.
+func errPrefix(err error) string {
+	s := err.Error()
+	if i := strings.IndexByte(s, ':'); i >= 0 {
+		return q(s[:i+1])
+	}
+	return "(none)"
+}
 
 func errStr(err error) string {
 	if err == nil {
@@ -289,6 +299,10 @@ func unmarshalSpace(name string, alpha []string, n int, extra []string, fn func(
 				return ok("invalid-target-error", false)
 			}
 			t := ts[k]
+			if n >= 4 && strings.HasSuffix(t.name, "(zero)") && i%nd < en.Size() && len(en.Atoms(i%nd)) == n {
+				// the longest token strings are decoded into the non-zero presets only
+				return ok("longest-documents-skipped-for-zero-presets", false)
+			}
 			in := fmt.Sprintf("%s(%s, %s)", name, q(data), t.name)
 			ptr := reflect.New(t.typ)
 			ptr.Elem().Set(t.pre())
@@ -362,7 +376,7 @@ func jsonYAMLSpaces(thorough bool) []fspace {
 			if g.err == nil {
 				return ok("encoded", true)
 			}
-			return ok("error", true)
+			return ok("error with prefix "+errPrefix(g.err), true)
 		},
 		desc: func(i uint64) any { return map[string]any{"v": marshalValues[i].name} }})
 
@@ -396,7 +410,7 @@ func jsonYAMLSpaces(thorough bool) []fspace {
 			if g.err == nil {
 				return ok("encoded", prefix != "" || indent != "")
 			}
-			return ok("error", false)
+			return ok("error with prefix "+errPrefix(g.err), false)
 		},
 		desc: func(i uint64) any {
 			d := kit.Mixed(i, nV, nP, nP)
@@ -406,7 +420,8 @@ func jsonYAMLSpaces(thorough bool) []fspace {
 	// IndentJSON: panics exactly when data is not valid JSON or prefix/indent have characters other than ' ' and '\t'
 	checkIndent := func(data, prefix, indent string) res {
 		in := fmt.Sprintf("IndentJSON(%s, %s, %s)", q(data), q(prefix), q(indent))
-		g, p := try(func() native.JSON { return builtin.IndentJSON(native.JSON(data), prefix, indent) })
+		var g native.JSON
+		pv, p := catch(func() { g = builtin.IndentJSON(native.JSON(data), prefix, indent) })
 		valid := json.Valid([]byte(data))
 		docWS := onlyChars(prefix, " \t") && onlyChars(indent, " \t")
 		jsonWS := onlyChars(prefix, " \t\n\r") && onlyChars(indent, " \t\n\r")
@@ -414,6 +429,9 @@ func jsonYAMLSpaces(thorough bool) []fspace {
 		case p && valid && docWS:
 			return unexpectedPanic(func() { builtin.IndentJSON(native.JSON(data), prefix, indent) }, in)
 		case p:
+			if _, rt := pv.(runtime.Error); rt {
+				return ok("documented-panic(raised as a runtime error: "+kit.NormMsg(fmt.Sprint(pv))+")", true)
+			}
 			return ok("documented-panic", true)
 		case !valid:
 			return bad("no-panic-for-invalid-JSON", "input %s\nexpected a panic (documented)\nobserved %q", in, g)
